@@ -1620,6 +1620,10 @@ class DynamicBase(BaseSpaceImpl):
             root = dynsub.rootspace
             root.parent.clear_itemspace_at(root.argvalues_if)
 
+    def on_delete(self):
+        self.del_all_itemspaces()
+        BaseSpaceImpl.on_delete(self)
+
 
 _user_space_impl_base = (
     DynamicBase,
